@@ -140,6 +140,46 @@ def closure_element_ranges(fn, F):
     return out
 
 
+def _case_terms(fn, F, node, terms):
+    """[[(lo, hi) or None per term] per side to move]: the normal forms folded with the equations of the guards `node` runs under
+    (`*rank == expected_rank`) and the side to move fixed, then bounded with the ranges of range-pattern bindings"""
+    from .common import pattern_ranges, term_interval, chess_evalcalls, discr_map
+    symt = hir.Sym(hir.Env(fn["hir"], F), F, through=True)
+    body = fn["hir"]["body"]
+    eqs = {}
+    for g in hir.guards_of(node, body, symt) or []:
+        if g[0] == "if" and g[2] is True and isinstance(g[1], tuple) and g[1][:2] == ("bin", "=="):
+            for a_, b_ in ((g[1][2], g[1][3]), (g[1][3], g[1][2])):
+                x = a_
+                while x[0] in ("un", "deref") and isinstance(x[-1], tuple):
+                    x = x[-1]
+                if x[0] == "var" and b_[0] != "var":
+                    eqs[x] = b_
+                    eqs[a_] = b_
+    rng = pattern_ranges(fn["hir"])
+    D = discr_map(F)
+    ev = chess_evalcalls(None, {})
+    ts = [hir.subst(symt(t), eqs) for t in terms]
+
+    def player_valued(t):
+        return t[0] == "match" and any(b[0] == "variant" and str(b[1]).startswith("chess::Player::") for _, _, b in t[2]) and \
+            all((b[0] == "variant" and str(b[1]).startswith("chess::Player::")) or b[0] in ("ret", "call", "panic") for _, _, b in t[2])
+    players = {x for t in ts for x in hir.subterms(t) if player_valued(x) or x[:2] == ("var", "current_player")}
+    out = []
+    for side in ("White", "Black"):
+        a = {p_: ("variant", "chess::Player::" + side) for p_ in players}
+        out.append([term_interval(hir.fold(hir.fold(t, a, D, None, ev), a, D, None, ev), rng) for t in ts])
+    return out
+
+
+def position_args_by_cases(fn, F, call):
+    try:
+        rows = _case_terms(fn, F, call, list(call["args"]))
+    except Exception:
+        return False
+    return all(iv is not None and 0 <= iv[0] and iv[1] <= 7 for r in rows for iv in r)
+
+
 def w1(ctx, Fr, F):
     g = mir.callgraph(Fr)
     reach = sorted(p for p in mir.reachable_fns(g, NEW) if p in Fr.fns)
@@ -255,6 +295,10 @@ def w1(ctx, Fr, F):
                         oks.append(all(v is not None and 0 <= v[0] and v[1] <= 7 for v in vals))
                         found.setdefault("args", []).append(vals)
                     ok = bool(calls) and all(oks)
+                    if not ok and calls:
+                        ok = all(position_args_by_cases(fn, Fr, x) for x in calls)
+                        if ok:
+                            found["args"] = "within 0..7 for either side to move (case evaluation of the argument normal forms)"
                     if not ok:
                         # fall back to the interval analysis (S4): argument ranges at the call
                         from . import ranges as _rng
@@ -523,6 +567,33 @@ ASSUMED = {
 }
 
 
+def overflow_by_cases(fn, F, t, msg):
+    """an arithmetic assert of the importer whose operands the MIR intervals cannot bound (they pass through calls): the HIR
+    operation on the same line, bounded by case evaluation"""
+    op = {"Overflow:Add": "+", "Overflow:Sub": "-", "Overflow:Mul": "*"}.get(msg)
+    if op is None:
+        return False
+    line = mir.span_line(t)
+    sp = t.get("span") or []
+    cands = [n for n, _ in hir.walk(fn["hir"]["body"]) if n.get("k") == "Binary" and n.get("op") == op and hir.line(n) == line
+             and (len(sp) < 4 or (n.get("osp") or n.get("sp") or [0, 0, 0, 0])[:4] == sp[:4] or True)]
+    if not cands:
+        return False
+    lim = {"i8": (-128, 127), "u8": (0, 255), "i16": (-32768, 32767), "u16": (0, 65535), "i32": (-2 ** 31, 2 ** 31 - 1), "u32": (0, 2 ** 32 - 1),
+           "usize": (0, 2 ** 64 - 1), "u64": (0, 2 ** 64 - 1)}
+    for n in cands:
+        ty = lim.get(n.get("ty"))
+        if ty is None:
+            return False
+        try:
+            rows = _case_terms(fn, F, n, [n])
+        except Exception:
+            return False
+        if not all(iv is not None and ty[0] <= iv[0] and iv[1] <= ty[1] for r in rows for iv in r):
+            return False
+    return True
+
+
 def w1_ranges(ctx, F):
     """Overflow-checking configuration: every arithmetic assert inside Game::new itself (the importer's own arithmetic on input-derived
     values) is discharged by the interval analysis (S4), except the enumerated assumption."""
@@ -554,6 +625,10 @@ def w1_ranges(ctx, F):
                     break
         key = "%s(%s)" % (msg, nm or "temp")
         seen[key] = seen.get(key, 0) + 1
+        if not ok and fn.get("hir"):
+            ok = overflow_by_cases(fn, F, t, msg)
+            if ok:
+                detail = "operands bounded for either side to move (case evaluation of the operand normal forms)"
         assumed = ASSUMED.get((msg, nm))
         if assumed and not ok:
             ctx.assume("C17.W1: %s" % assumed)
